@@ -102,3 +102,133 @@ Theorem C20_example_lying_offset :
   = (Err, 40).
 Proof. exact ex_lying_alloc. Qed.
 Print Assumptions C20_example_lying_offset.
+
+(* ======================= flat decoders ======================= *)
+(* C20, flat decoders — block to be appended to Props/C20.v.
+
+   Model: FlatAlloc.v, [flat_dec_a] = Codec.flat_dec (codec/decoder.go, tree.ReadRoots and the
+   destination objects assembled from them as in harness/flat_test.go) instrumented with the
+   number of bytes asked from the Go allocator (charged also when decoding fails);
+   [flat_decode_a] = the top-level call (a fresh destination [fnew t] and the reader of
+   NewDecodingReader, [c_sub] = 96 bytes, are charged too).  The bound functions [fperbyte t]
+   (bytes per input byte) and [ffoot t] (fixed footprint: vector lengths, field counts,
+   byte-vector sizes) are defined at the end of FlatAlloc.v; no list / bitlist limit occurs in
+   them.  The prior state [c] of the destination is arbitrary.
+   Spec vocabulary (FlatAllocProofs.v): [lenN] = length as N (Spec.lenN);
+   [bitvectors_fit t] = every Bitvector[n] inside t has n + 7 < 2^64 (the uint64 computation
+   (n + 7) >> 3 of its byte length in Go does not wrap);
+   [erase_limits t] (AllocProofs.v) = t with every list / bitlist limit replaced by 0.
+
+   Statement note.  As for the view decoder the bound is stated for ALL reader states and
+   charges [fperbyte t] per byte of scope AND per byte left in the stream (reads through a
+   sub-scope do not advance the parent's index).
+   Hypothesis.  Each bound is proved under  [bitvectors_fit t = true]  (any reader state, any
+   input length), and alternatively for EVERY type under a scope / input length below 2^61
+   bytes.  One of the two is needed by the proof: Bitvector[2^64 - 7] has FixedLength() = 2^61
+   but is read as 0 bytes, so List[Bitvector[2^64 - 7], _] in a scope of k * 2^61 bytes
+   decodes k elements without consuming a byte and the success form of the bound (allocation
+   <= fperbyte per consumed byte + ffoot) is false for it: see
+   [C20_flat_success_bound_needs_hypothesis].  No well-formedness of the type is assumed. *)
+From Ztyp Require Import Base Types Spec Reader Codec Alloc FlatAlloc AllocProofs FlatAllocProofs.
+Open Scope N_scope.
+
+(* a. the instrumented flat decoder computes the same result *)
+Theorem C20_flat_instrumentation_faithful : forall t c st d,
+  fst (flat_dec_a t c st d) = flat_dec t c st d.
+Proof. exact flat_instrumentation_faithful. Qed.
+Print Assumptions C20_flat_instrumentation_faithful.
+
+Theorem C20_flat_decode_faithful : forall t c bs,
+  fst (flat_decode_a t c bs) = flat_decode t c bs.
+Proof. exact flat_decode_faithful. Qed.
+Print Assumptions C20_flat_decode_faithful.
+
+(* b. the bound, every reader state, every prior destination state *)
+Theorem C20_flat_bound : forall t c st d,
+  bitvectors_fit t = true ->
+  snd (flat_dec_a t c st d) <= fperbyte t * (dr_scope d + lenN (r_stream st)) + ffoot t.
+Proof. exact flat_alloc_bound. Qed.
+Print Assumptions C20_flat_bound.
+
+(* the same for every type whatsoever, in scopes below 2^61 bytes *)
+Theorem C20_flat_bound_any_type : forall t c st d,
+  dr_scope d < 2 ^ 61 ->
+  snd (flat_dec_a t c st d) <= fperbyte t * (dr_scope d + lenN (r_stream st)) + ffoot t.
+Proof. exact flat_alloc_bound_small_scope. Qed.
+Print Assumptions C20_flat_bound_any_type.
+
+(* top level: new(T); value.Deserialize(codec.NewDecodingReader(bytes.NewReader(bs), len(bs))) *)
+Theorem C20_flat_bound_top : forall t c bs,
+  bitvectors_fit t = true ->
+  snd (flat_decode_a t c bs) <= 2 * fperbyte t * lenN bs + (fnew t + c_sub + ffoot t).
+Proof. exact flat_alloc_bound_top. Qed.
+Print Assumptions C20_flat_bound_top.
+
+Theorem C20_flat_bound_top_any_type : forall t c bs,
+  lenN bs < 2 ^ 61 ->
+  snd (flat_decode_a t c bs) <= 2 * fperbyte t * lenN bs + (fnew t + c_sub + ffoot t).
+Proof. exact flat_alloc_bound_top_small. Qed.
+Print Assumptions C20_flat_bound_top_any_type.
+
+(* a successful decode has allocated at most fperbyte t per byte it CONSUMED, plus ffoot t *)
+Theorem C20_flat_bound_success : forall t c st d v c' st' d',
+  bitvectors_fit t = true \/ dr_scope d < 2 ^ 61 ->
+  fst (flat_dec_a t c st d) = OK (v, c', st', d') ->
+  lenN (r_stream st') <= lenN (r_stream st) /\
+  snd (flat_dec_a t c st d)
+    <= fperbyte t * (lenN (r_stream st) - lenN (r_stream st')) + ffoot t.
+Proof. exact flat_alloc_bound_success. Qed.
+Print Assumptions C20_flat_bound_success.
+
+(* ... and without the hypothesis that statement is false (List[Bitvector[2^64 - 7], 2^40] in a
+   scope of 2^62 bytes over an empty stream: success, 448 bytes allocated, bound 40) *)
+Theorem C20_flat_success_bound_needs_hypothesis :
+  ~ (forall t c st d v c' st' d', fst (flat_dec_a t c st d) = OK (v, c', st', d') ->
+       snd (flat_dec_a t c st d)
+         <= fperbyte t * (lenN (r_stream st) - lenN (r_stream st')) + ffoot t).
+Proof. exact flat_success_bound_needs_hypothesis. Qed.
+Print Assumptions C20_flat_success_bound_needs_hypothesis.
+
+(* types with parameters below 2^56 (Repr.small_params, the side condition of C09) fit *)
+Theorem C20_flat_small_params_fit : forall t,
+  Repr.small_params t = true -> bitvectors_fit t = true.
+Proof. exact small_params_bitvectors_fit. Qed.
+Print Assumptions C20_flat_small_params_fit.
+
+(* the bound functions and the fresh destination do not depend on any list / bitlist limit *)
+Theorem C20_flat_bound_limit_free : forall t,
+  fperbyte (erase_limits t) = fperbyte t /\ ffoot (erase_limits t) = ffoot t /\
+  fnew (erase_limits t) = fnew t.
+Proof. exact flat_bound_limit_free. Qed.
+Print Assumptions C20_flat_bound_limit_free.
+
+(* c. non-vacuity: hostile inputs against List[List[uint8, 2^40], 2^40]
+   (ex_T2; ex_hostile = fc ff ff 0f, first offset 0x0ffffffc; ex_lying = 08 00 00 00 ff ff ff ff 01;
+   ex_two_empty = 08 00 00 00 08 00 00 00): 176 = destination 48 + reader 96 + closure 32 *)
+Theorem C20_flat_example_hostile :
+  fst (flat_decode_a (TList (TList (TUint 1) (2 ^ 40)) (2 ^ 40)) CFresh
+         [Byte.xfc; Byte.xff; Byte.xff; Byte.x0f]) = Err /\
+  snd (flat_decode_a (TList (TList (TUint 1) (2 ^ 40)) (2 ^ 40)) CFresh
+         [Byte.xfc; Byte.xff; Byte.xff; Byte.x0f]) = 176 /\
+  2 * fperbyte ex_T2 * lenN ex_hostile + (fnew ex_T2 + c_sub + ffoot ex_T2) = 2240.
+Proof. exact ex_flat_hostile_alloc. Qed.
+Print Assumptions C20_flat_example_hostile.
+
+Theorem C20_flat_example_lying_offset :
+  fst (flat_decode_a (TList (TList (TUint 1) (2 ^ 40)) (2 ^ 40)) CFresh
+         [Byte.x08; Byte.x00; Byte.x00; Byte.x00; Byte.xff; Byte.xff; Byte.xff; Byte.xff; Byte.x01])
+  = Err /\
+  snd (flat_decode_a (TList (TList (TUint 1) (2 ^ 40)) (2 ^ 40)) CFresh
+         [Byte.x08; Byte.x00; Byte.x00; Byte.x00; Byte.xff; Byte.xff; Byte.xff; Byte.xff; Byte.x01])
+  = 304.
+Proof. exact ex_flat_lying_alloc. Qed.
+Print Assumptions C20_flat_example_lying_offset.
+
+(* a successful decode with a positive charge below the bound; the type fits *)
+Theorem C20_flat_example_success :
+  is_ok (fst (flat_decode_a ex_T2 CFresh ex_two_empty)) = true /\
+  snd (flat_decode_a ex_T2 CFresh ex_two_empty) = 608 /\
+  2 * fperbyte ex_T2 * lenN ex_two_empty + (fnew ex_T2 + c_sub + ffoot ex_T2) = 4296 /\
+  bitvectors_fit ex_T2 = true.
+Proof. exact ex_flat_success_alloc. Qed.
+Print Assumptions C20_flat_example_success.
